@@ -130,8 +130,12 @@ func XML(URL *models.URL) (assets, outlinks []*models.URL, err error) {
 				}
 			}
 		case xml.CharData:
-			if bytes.HasPrefix(tok, []byte("http")) {
-				rawURLs = append(rawURLs, string(tok))
+			// Pretty-printed documents surround the URL with whitespace, and a text node
+			// starting with a URL can hold more than that URL: only take the node as a
+			// whole when it is a single token
+			text := bytes.TrimSpace(tok)
+			if bytes.HasPrefix(text, []byte("http")) && !bytes.ContainsAny(text, " \t\r\n") {
+				rawURLs = append(rawURLs, string(text))
 			} else {
 				// Try to extract URLs from the text
 				rawURLs = append(rawURLs, utils.DedupeStrings(LinkRegexStrict.FindAllString(string(tok), -1))...)
